@@ -22,7 +22,13 @@
   cholesky_solve) is measured on sizes 1..40, batches, condition numbers up to 1e8, rank-deficient
   (exact integer rank factorisations), indefinite and singular matrices; the wrappers' raise / return
   decisions go through Coq (wrap_bad); the property itself (least squares, minimum norm, SPD solution,
-  failure clause) is checked on the wrappers' return values.
+  failure clause) is checked on the wrappers' return values.  The least-squares oracle uses the
+  CONSTRUCTION of each matrix (orthonormal factors and singular values, or an exact integer rank
+  factorisation solved over Q): smallest attainable residual and minimum-norm solution are known without
+  any solver, so a cut-off that discards singular values inside the quantifier (cond <= 1e8 in float64,
+  <= 1e3 in float32) shows up as an O(1) residual excess.  Every problem is judged in every call form:
+  default / explicit cut-off, all LSTSQ drivers, float64 / float32 input, BOTH process default dtypes
+  (torch.set_default_dtype, restored), memory layouts, reused solver objects; arguments are snapshotted.
   This validates hypotheses about torch on samples; it proves nothing about LAPACK.
 * Cholesky failure clause (repaired in /repo 3f16d24, `fixed:` in known_findings.txt): the former witnesses
   (A=[[1,2],[2,1]], [[1,1],[1,1]], [[-1]]) are kept as directed cases and every generated indefinite /
@@ -41,6 +47,22 @@ EPS = 2.0 ** -52
 
 # ------------------------------------------------------------------------------------------------
 # small helpers
+class default_dtype:
+    """run a block under the process default dtype `name` ('float32' / 'float64' / None = leave) and restore it:
+    what a solver returns for given tensors must not depend on this global"""
+    def __init__(self, torch, name):
+        self.torch, self.name = torch, name
+
+    def __enter__(self):
+        self.old = self.torch.get_default_dtype()
+        if self.name:
+            self.torch.set_default_dtype(getattr(self.torch, self.name))
+
+    def __exit__(self, *a):
+        self.torch.set_default_dtype(self.old)
+        return False
+
+
 def nat(n):
     return '%d%%nat' % n
 
@@ -374,15 +396,23 @@ def run_cg(torch, CG, c):
     b = torch.tensor(c['b'], dtype=torch.float64)
     b = b.reshape(-1, 1) if c['bcol'] else b
     x0 = None if c['x0'] is None else torch.tensor(c['x0'], dtype=torch.float64).reshape(-1, 1)
+    dense = lambda t: None if t is None else (t.to_dense() if t.layout != torch.strided else t).clone()
+    snap = [dense(t) for t in (A, b, x0, M)]
     try:
-        solver = CG(maxiter=c['maxiter'], tol=c['tol'])
-        # history: the same solver object has already solved systems of these sizes (a solver must not
-        # carry anything over from one call to the next)
-        for m in c.get('prime_sizes') or []:
-            solver(torch.eye(m, dtype=torch.float64) * 2.0, torch.ones(m, 1, dtype=torch.float64))
-        x = solver(A, b, x0, M)
+        with default_dtype(torch, c.get('defdtype')):
+            solver = CG(maxiter=c['maxiter'], tol=c['tol'])
+            # history: the same solver object has already solved systems of these sizes (a solver must not
+            # carry anything over from one call to the next)
+            for m in c.get('prime_sizes') or []:
+                solver(torch.eye(m, dtype=torch.float64) * 2.0, torch.ones(m, 1, dtype=torch.float64))
+            x = solver(A, b, x0, M)
     except BaseException as e:  # noqa
         return ('raised', '%s: %s' % (type(e).__name__, str(e)[:200]))
+    for nm, t0, t1 in zip(('A', 'b', 'x0', 'M'), snap, (A, b, x0, M)):
+        if t0 is not None and not torch.equal(t0, dense(t1)):
+            return ('raised', 'no exception, but the argument %s was modified in place by the call' % nm)
+    if x.dtype != torch.float64:
+        return ('raised', 'no exception, but a %s result for float64 input (process default dtype %s)' % (x.dtype, c.get('defdtype')))
     v = tolist(x)
     if not all(math.isfinite(t) for t in v):
         return 'nonfinite'
@@ -394,7 +424,8 @@ def cg_cases(ctx):
     cases = []
 
     def add(branch, A, b, x0, M, tol, maxiters, storeA='dense', storeM='dense', bcol=True):
-        cases.append(dict(kind='cg', branch=branch, A=A, b=b, x0=x0, M=M, tol=tol, maxiters=maxiters, storeA=storeA, storeM=storeM, bcol=bcol))
+        cases.append(dict(kind='cg', branch=branch, A=A, b=b, x0=x0, M=M, tol=tol, maxiters=maxiters, storeA=storeA, storeM=storeM, bcol=bcol,
+                          defdtype=('float32', 'float64')[len(cases) % 2]))
     I2 = [[1.0, 0.0], [0.0, 1.0]]
     S4 = [[4.0, 1.0, 0, 0], [1.0, 3.0, 0, 0], [0, 0, 2.0, 0.5], [0, 0, 0.5, 1.0]]
     # directed: every branch of the model
@@ -522,7 +553,7 @@ def check_cg_property(ctx, torch, CG):
             M = None if Mk is None else torch.diag(1.0 / torch.diag(A)).tolist()
             x0 = None if rng.random() < 0.6 else torch.randn(n, generator=gen, dtype=torch.float64).tolist()
             c = dict(kind='cg-prop', A=A.tolist(), b=b.tolist() if rep or n % 5 else [0.0] * n, x0=x0, M=M, tol=rng.choice([1e-5, 1e-5, 1e-3, 1e-8]),
-                     maxiter=None, storeA=store, storeM=rng.choice(['dense', 'csr']), bcol=True, kappa=kappa)
+                     maxiter=None, storeA=store, storeM=rng.choice(['dense', 'csr']), bcol=True, kappa=kappa, defdtype=('float32', 'float64')[(n + rep) % 2])
             if rep == 1:
                 # one solver object reused: smaller systems first, then this one
                 c['prime_sizes'] = sorted(rng.sample(range(1, max(2, n)), min(2, max(1, n - 1)))) if n > 1 else [1]
@@ -550,7 +581,7 @@ def mat_family(torch, rng, gen, m, n, fam):
         U = rand_orth(T, m, gen)[:, :r]
         V = rand_orth(T, n, gen)[:, :r]
         s = T.tensor([kappa ** (-k / max(r - 1, 1)) for k in range(r)], dtype=T.float64)
-        return (U * s) @ V.T, dict(kappa=kappa, rank=r)
+        return (U * s) @ V.T, dict(kappa=kappa, rank=r, U=U, s=s, V=V)
     if fam == 'rankdef':
         r = rng.randint(1, max(1, min(m, n, 6) - (1 if min(m, n) > 1 else 0)))
         while True:
@@ -594,44 +625,214 @@ def nrm(t):
     return float(t.norm())
 
 
-def ls_property(T, solver, c):
-    """PINV / LSTSQ on one (batched) case: every returned column must be a least-squares solution (normal
-    equations A^T (A x - b) = 0, relative to |A| (|A| |x| + |b|), tolerance 1e3 max(m,n) eps cond) and,
-    for PINV and for LSTSQ's default driver on rank-deficient A, have no component in the null space of A.
-    Returns (failure description or None, {quantity: measured / allowed})."""
-    A = T.tensor(c['A'], dtype=T.float64)
-    b = T.tensor(c['b'], dtype=T.float64)
-    m, n, k = c['m'], c['n'], c['k']
+LS_DRIVERS = [None, 'gelsy', 'gelsd', 'gelss', 'gels']
+LS_LAYOUTS = [None, 'transposed', 'slice']
+
+
+def frac_solve(G, H):
+    """exact solution Y of G Y = H over the rationals (G square, non-singular): Gauss-Jordan"""
+    n = len(G)
+    M = [list(G[i]) + list(H[i]) for i in range(n)]
+    for col in range(n):
+        p = next(i for i in range(col, n) if M[i][col] != 0)
+        M[col], M[p] = M[p], M[col]
+        inv = 1 / M[col][col]
+        M[col] = [v * inv for v in M[col]]
+        for i in range(n):
+            if i != col and M[i][col] != 0:
+                f = M[i][col]
+                M[i] = [u - f * v for u, v in zip(M[i], M[col])]
+    return [row[n:] for row in M]
+
+
+def ls_reference(T, c, t, b):
+    """the smallest attainable residual |A x - b| and the minimum-norm least-squares solution of item t
+    for every column of b (m x k, float64), from the CONSTRUCTION of the matrix, never from a solver:
+    'full': A = U diag(s) V^T with orthonormal U, V: min residual |(I - U U^T) b|, x* = V diag(1/s) U^T b;
+    'rankdef': A = B C exactly (integer factors scaled by powers of two, B of full column rank, C of full
+    row rank): range(A) = range(B); the normal equations of B and the minimum-norm preimage under C are
+    solved exactly over the rationals.  Returns (list of k residual norms, x* as n x k float64 tensor)."""
+    if c.get('U') is not None:
+        U = T.tensor(c['U'][t], dtype=T.float64)
+        V = T.tensor(c['V'][t], dtype=T.float64)
+        s = T.tensor(c['s'][t], dtype=T.float64)
+        cb = U.T @ b
+        return (b - U @ cb).norm(dim=0).tolist(), V @ (cb / s[:, None])
+    B, C = c['B'][t], c['C'][t]
+    m, r, n, k = len(B), len(B[0]), len(C[0]), b.shape[1]
+    Bf = [[F(v) for v in row] for row in B]
+    Cf = [[F(v) for v in row] for row in C]
+    bf = [[F(v) for v in row] for row in b.tolist()]
+    G = [[sum(Bf[i][p] * Bf[i][q] for i in range(m)) for q in range(r)] for p in range(r)]
+    H = [[sum(Bf[i][p] * bf[i][j] for i in range(m)) for j in range(k)] for p in range(r)]
+    Y = frac_solve(G, H)                                   # B Y = projection of b on range(A);  C x = Y
+    r2 = [sum(bf[i][j] ** 2 for i in range(m)) - sum(H[p][j] * Y[p][j] for p in range(r)) for j in range(k)]
+    CCt = [[sum(Cf[p][i] * Cf[q][i] for i in range(n)) for q in range(r)] for p in range(r)]
+    Z = frac_solve(CCt, Y)
+    xs = [[float(sum(Cf[p][i] * Z[p][j] for p in range(r))) for j in range(k)] for i in range(n)]
+    return [math.sqrt(max(0.0, float(v))) for v in r2], T.tensor(xs, dtype=T.float64).reshape(n, k)
+
+
+def ls_refs(T, c):
+    """ls_reference for every batch item of the case, on the right-hand side as the solver sees it"""
+    dt = getattr(T, c.get('dtype') or 'float64')
+    bf = T.tensor(c['b'], dtype=T.float64).to(dt).double().reshape(-1, c['m'], c['k'])
+    return [ls_reference(T, c, t, bf[t]) for t in range(bf.shape[0])]
+
+
+def relayout(T, X, how):
+    """a tensor with the values of X and another memory layout; returns (tensor, base or None)"""
+    if how == 'transposed':
+        return X.mT.contiguous().mT, None
+    if how == 'slice':
+        base = T.zeros(X.shape[:-2] + (2 * X.shape[-2] + 1, 2 * X.shape[-1] + 1), dtype=X.dtype)
+        Y = base[..., 1::2, 1::2]
+        Y.copy_(X)
+        return Y, base
+    return X.clone(), None
+
+
+def ls_call(T, solver, c, A, b):
+    """the judged call: a fresh solver object that has already solved other systems (c['history']), under the
+    process default dtype c['defdtype'] (restored afterwards)"""
+    dt = A.dtype
+    old = T.get_default_dtype()
     try:
+        if c.get('defdtype'):
+            T.set_default_dtype(getattr(T, c['defdtype']))
         if c['solver'] == 'PINV':
-            x = solver.PINV(rtol=c['tolcut'])(A, b)
+            obj = solver.PINV(rtol=c['tolcut'])
         else:
-            x = solver.LSTSQ(rcond=c['tolcut'])(A, b)
+            obj = solver.LSTSQ(rcond=c['tolcut'], driver=c.get('driver'))
+        g = T.Generator().manual_seed(77)
+        for hm, hn in c.get('history') or []:
+            obj(T.randn(hm, hn, generator=g, dtype=T.float64).to(dt), T.randn(hm, 2, generator=g, dtype=T.float64).to(dt))
+        return obj(A, b)
+    finally:
+        T.set_default_dtype(old)
+
+
+def ls_property(T, solver, c, ref=None):
+    """PINV / LSTSQ on one (batched) case, written from the property text.  Every returned column must be
+    a least-squares solution:
+      (a) residual: |A x - b| <= (smallest attainable residual, known from the construction of A)
+          + 1e3 max(m,n) eps (|A| (|x| + |x*|) + |b|)   [backward-stable solve; PINV, which forms the
+          pseudo-inverse explicitly, gets cond |b| instead of |b|];
+      (b) normal equations A^T (A x - b) = 0 relative to |A| (|A| |x| + |b|), tolerance 1e3 max(m,n) eps cond;
+    and, for PINV (always) and LSTSQ (where the least-squares solution is unique, or rank-deficient A),
+      (c) minimum norm: no component in the null space of A; distance to the minimum-norm solution x* of
+          the construction <= 1e3 max(m,n) eps (cond (|x| + |x*|) + cond^2 min-residual / |A|)  [Wedin].
+    The call is made with the optional arguments / driver / memory layout / input dtype / process default
+    dtype / solver history recorded in the case; the arguments must come back unchanged.  eps is that of
+    the dtype of A.  Returns (failure description or None, {quantity: measured / allowed})."""
+    dt = getattr(T, c.get('dtype') or 'float64')
+    eps = float(T.finfo(dt).eps)
+    A64 = T.tensor(c['A'], dtype=T.float64)
+    b64 = T.tensor(c['b'], dtype=T.float64)
+    m, n, k = c['m'], c['n'], c['k']
+    batch = tuple(c['batch'])
+    A, baseA = relayout(T, A64.to(dt), c.get('layout'))
+    b, baseb = relayout(T, b64.to(dt), c.get('layout'))
+    snap = [A.clone(), b.clone(), None if baseA is None else baseA.clone(), None if baseb is None else baseb.clone()]
+    how = '%s(%s%s)(A, b) [A %dx%d %s, batch %s, k=%d, family %s, layout %s, default dtype %s, after %d other solves]' % (
+        c['solver'], 'rtol=%s' % c['tolcut'] if c['solver'] == 'PINV' else 'rcond=%s' % c['tolcut'],
+        '' if c['solver'] == 'PINV' else ', driver=%s' % c.get('driver'), m, n, str(dt)[6:], batch, k, c['fam'],
+        c.get('layout') or 'contiguous', c.get('defdtype') or 'unchanged', len(c.get('history') or []))
+    try:
+        x = ls_call(T, solver, c, A, b)
     except Exception as e:  # noqa
-        return '%s raised %s on a finite %dx%d matrix: %s' % (c['solver'], type(e).__name__, m, n, str(e)[:160]), {}
-    Af, bf, xf = A.reshape(-1, m, n), b.reshape(-1, m, k), x.reshape(-1, n, k)
+        return '%s raised %s on a finite matrix: %s' % (how, type(e).__name__, str(e)[:160]), {}
+    if not (T.equal(A, snap[0]) and T.equal(b, snap[1]) and (baseA is None or T.equal(baseA, snap[2])) and (baseb is None or T.equal(baseb, snap[3]))):
+        return '%s modified its arguments (or the storage around them) in place' % how, {}
+    if not isinstance(x, T.Tensor) or tuple(x.shape) != batch + (n, k) or x.dtype != dt:
+        return '%s returned %s of shape %s, expected %s of shape %s' % (how, getattr(x, 'dtype', type(x).__name__), tuple(getattr(x, 'shape', ())), dt, batch + (n, k)), {}
+    if not bool(T.isfinite(x).all()):
+        return '%s returned a non-finite solution' % how, {}
+    Af, bf, xf = A.double().reshape(-1, m, n), b.double().reshape(-1, m, k), x.double().reshape(-1, n, k)
     ratios, why = {}, None
+    unique = (c['fam'] == 'full' and m >= n)
     for t in range(Af.shape[0]):
         a, kp = Af[t], c['kappas'][t]
         na = nrm(a)
-        scale = 1e3 * max(m, n) * EPS
+        scale = 1e3 * max(m, n) * eps
+        # (a) residual against the construction
+        if c.get('U') is not None or c.get('B') is not None:
+            if ref is None:
+                ref = ls_refs(T, c)
+            rmin, xs = ref[t]
+            for j in range(k):
+                xj, bj, sj = xf[t][:, j], bf[t][:, j], xs[:, j]
+                res = nrm(a @ xj - bj)
+                lim = scale * (na * (nrm(xj) + nrm(sj)) + (kp if c['solver'] == 'PINV' else 1.0) * nrm(bj))
+                r = (res - rmin[j]) / lim if lim > 0 else (0.0 if res <= rmin[j] else float('inf'))
+                ratios['residual'] = max(ratios.get('residual', 0.0), r)
+                if not r <= 1.0 and why is None:
+                    why = ('%s returned x (item %d, column %d, cond %.1e) with |A x - b| = %.6e, but the smallest attainable residual is %.6e '
+                           '(x* of norm %.3e; |x| = %.3e; slack allowed %.1e): not a least-squares solution' % (how, t, j, kp, res, rmin[j], nrm(sj), nrm(xj), lim))
+                if (c['solver'] == 'PINV' or unique) and not c.get('lsonly'):
+                    err = nrm(xj - sj)
+                    lim = scale * (kp * (nrm(xj) + nrm(sj)) + kp * kp * rmin[j] / na) + 1e-300
+                    r = err / lim
+                    ratios['distance-to-x*'] = max(ratios.get('distance-to-x*', 0.0), r)
+                    if not r <= 1.0 and why is None:
+                        why = ('%s returned x (item %d, column %d, cond %.1e) at distance %.3e from the %s least-squares solution x* (|x*| = %.3e, |x| = %.3e, allowed %.1e)'
+                               % (how, t, j, kp, err, 'unique' if unique else 'minimum-norm', nrm(sj), nrm(xj), lim))
+        # (b) normal equations
         g = a.T @ (a @ xf[t] - bf[t])
         lim = scale * kp * na * (na * nrm(xf[t]) + nrm(bf[t]))
         r = nrm(g) / lim if lim > 0 else (0.0 if nrm(g) == 0 else float('inf'))
         ratios['normal-equations'] = max(ratios.get('normal-equations', 0.0), r)
         if not r <= 1.0 and why is None:
-            why = ('%s(A, b) (A %dx%d, batch %s, cond %.1e, family %s) returned x with |A^T (A x - b)| = %.3e, allowed %.3e: not a least-squares solution'
-                   % (c['solver'], m, n, tuple(c['batch']), kp, c['fam'], nrm(g), lim))
-        if c.get('C') is not None:
+            why = ('%s (cond %.1e) returned x with |A^T (A x - b)| = %.3e, allowed %.3e: not a least-squares solution' % (how, kp, nrm(g), lim))
+        # (c) null-space component (rank-deficient family)
+        if c.get('C') is not None and not c.get('lsonly'):
             C = T.tensor(c['C'][t], dtype=T.float64)
             proj = xf[t] - C.T @ T.linalg.solve(C @ C.T, C @ xf[t])
             lim = scale * kp * kp * nrm(xf[t]) + 1e-300
             r = nrm(proj) / lim
             ratios['minimum-norm'] = max(ratios.get('minimum-norm', 0.0), r)
             if not r <= 1.0 and why is None:
-                why = ('%s(A, b) (A %dx%d of rank %d, cond %.1e) returned x with a null-space component %.3e (|x| = %.3e): not the minimum-norm solution'
-                       % (c['solver'], m, n, C.shape[0], kp, nrm(proj), nrm(xf[t])))
+                why = ('%s (A of rank %d, cond %.1e) returned x with a null-space component %.3e (|x| = %.3e): not the minimum-norm solution'
+                       % (how, C.shape[0], kp, nrm(proj), nrm(xf[t])))
     return why, ratios
+
+
+def ls_base(fam, m, n, batch, k, infos, A, b):
+    """the replayable description of one generated least-squares problem (with the construction of A)"""
+    c = dict(kind='ls', fam=fam, m=m, n=n, batch=batch, k=k, kappas=[i['kappa'] for i in infos], A=A.tolist(), b=b.tolist(),
+             C=None, B=None, U=None, s=None, V=None, dtype='float64')
+    if fam == 'rankdef':
+        c.update(C=[i['C'].tolist() for i in infos], B=[i['B'].tolist() for i in infos])
+    else:
+        c.update(U=[i['U'].tolist() for i in infos], s=[i['s'].tolist() for i in infos], V=[i['V'].tolist() for i in infos])
+    return c
+
+
+def ls_variants(rng, base, thorough):
+    """the call forms judged on one problem"""
+    full = base['fam'] == 'full'
+    cut = None if full else 1e-11
+    hist = lambda: rng.choice([None, [[3, 2], [2, 4]], [[base['n'], base['m']]]])
+    out = []
+    for dd in ('float32', 'float64'):
+        out.append(dict(base, solver='PINV', tolcut=cut, defdtype=dd, layout=rng.choice(LS_LAYOUTS), history=hist()))
+        out.append(dict(base, solver='LSTSQ', tolcut=cut, driver=None, defdtype=dd, layout=rng.choice(LS_LAYOUTS), history=hist()))
+    for drv in LS_DRIVERS[1:]:
+        if drv == 'gels' and not full:
+            continue                                        # documented: gels assumes full rank
+        for dd in (('float32', 'float64') if thorough else (rng.choice(['float32', 'float64']),)):
+            out.append(dict(base, solver='LSTSQ', tolcut=cut, driver=drv, defdtype=dd, layout=rng.choice(LS_LAYOUTS), history=hist()))
+    if not full:
+        # default cut-off on exactly rank-deficient input: rounding decides the numerical rank, so only the
+        # least-squares clause is judged
+        for name, drv in (('PINV', None), ('LSTSQ', None), ('LSTSQ', 'gelsd')):
+            out.append(dict(base, solver=name, tolcut=None, driver=drv, defdtype=rng.choice(['float32', 'float64']), layout=None, history=None, lsonly=True))
+    else:
+        # single-precision input (condition numbers up to 1e3 only), under both process defaults
+        for name, drv in (('PINV', None), ('LSTSQ', None), ('LSTSQ', rng.choice(LS_DRIVERS[1:]))):
+            for dd in ('float32', 'float64'):
+                out.append(dict(base, solver=name, tolcut=None, driver=drv, defdtype=dd, layout=rng.choice(LS_LAYOUTS), history=hist(), dtype='float32'))
+    return out
 
 
 def check_direct(ctx, torch, solver, files, tables):
@@ -648,8 +849,9 @@ def check_direct(ctx, torch, solver, files, tables):
             ctx.mismatch('oracle:' + name, dict(c, kind='oracle', measured=val, limit=lim))
 
     sizes = list(range(1, 41)) if ctx.thorough else sorted(set([1, 2, 3, 4, 7, 12, 20, 33, 40] + [rng.randint(1, 40) for _ in range(5)]))
+    refs = {}
     # ---- PINV / LSTSQ
-    for n0 in sizes:
+    for n0 in [v for v in sizes for _ in range(3)]:
         for fam in ('full', 'rankdef'):
             for shape in ('square', 'tall', 'wide'):
                 m, n = (n0, n0) if shape == 'square' else ((n0, rng.randint(1, n0)) if shape == 'tall' else (rng.randint(1, n0), n0))
@@ -671,16 +873,20 @@ def check_direct(ctx, torch, solver, files, tables):
                 rtol_p = None if fam == 'full' else 1e-11
                 P = T.linalg.pinv(A, rtol=rtol_p)
                 # --- wrapper tie: PINV is exactly pinv(A) @ b
+                tie_dd = rng.choice(['float32', 'float64'])      # the wrappers are tied under either process default dtype
                 try:
-                    xp = solver.PINV(rtol=rtol_p)(A, b)
+                    with default_dtype(T, tie_dd):
+                        xp = solver.PINV(rtol=rtol_p)(A, b)
                     if not T.equal(xp, P @ b):
-                        ctx.mismatch('wrapper:PINV', dict(cdesc, kind='oracle', what='PINV(A,b) is not pinv(A) @ b'))
+                        ctx.mismatch('wrapper:PINV', dict(ls_base(fam, m, n, batch, k, infos, A, b), solver='PINV', tolcut=rtol_p,
+                                                          what='PINV(A,b) is not pinv(A) @ b'))
                 except Exception as e:  # noqa
                     ctx.violation('PINV.forward:raises', 'PINV raised %s: %s on a finite %dx%d matrix' % (type(e).__name__, str(e)[:120], m, n),
                                   dict(kind='ls', solver='PINV', fam=fam, m=m, n=n, batch=batch, k=k, tolcut=rtol_p, kappas=[i['kappa'] for i in infos], A=A.tolist(), b=b.tolist(), C=None))
                 try:
                     ls = solver.LSTSQ(rcond=None if fam == 'full' else 1e-11)
-                    xl = ls(A, b)
+                    with default_dtype(T, tie_dd):
+                        xl = ls(A, b)
                     raised = False
                 except AssertionError:
                     xl, raised = None, True
@@ -692,7 +898,9 @@ def check_direct(ctx, torch, solver, files, tables):
                 wrap.append((0, bool(T.isnan(sol).any()), 0, raised))
                 wmeta.append(dict(cdesc, wrapper='LSTSQ'))
                 if xl is not None and not T.equal(xl, sol):
-                    ctx.mismatch('wrapper:LSTSQ', dict(cdesc, kind='oracle', what='LSTSQ(A,b) is not lstsq(A,b).solution'))
+                    # replayable: the search phase judges this very call by the property's statement
+                    ctx.mismatch('wrapper:LSTSQ', dict(ls_base(fam, m, n, batch, k, infos, A, b), solver='LSTSQ', tolcut=None if fam == 'full' else 1e-11,
+                                                       what='LSTSQ(A,b) is not lstsq(A,b).solution'))
                 # --- contracts of the pinv oracle (per batch item)
                 Af, Pf = A.reshape(nb, m, n), P.reshape(nb, n, m)
                 for t in range(nb):
@@ -703,16 +911,28 @@ def check_direct(ctx, torch, solver, files, tables):
                     note('pinv:P A P = P', nrm(p_ @ a @ p_ - p_), scale * kp * nrm(p_), cdesc)
                     note('pinv:(A P)^T = A P', nrm((a @ p_).T - a @ p_), scale * kp, cdesc)
                     note('pinv:(P A)^T = P A', nrm((p_ @ a).T - p_ @ a), scale * kp, cdesc)
-                # --- the property itself on the wrappers' return values (least squares, minimum norm)
-                for name in ('PINV', 'LSTSQ'):
-                    c = dict(kind='ls', solver=name, fam=fam, m=m, n=n, batch=batch, k=k, tolcut=None if fam == 'full' else 1e-11,
-                             kappas=[i['kappa'] for i in infos], A=A.tolist(), b=b.tolist(),
-                             C=[i['C'].tolist() for i in infos] if fam == 'rankdef' else None)
-                    why, ratios = ls_property(T, solver, c)
+                # --- the property itself on the wrappers' return values (least squares, minimum norm), for every
+                # call form: both process default dtypes, every LSTSQ driver, default and explicit cut-off,
+                # memory layouts, a solver object that has solved other systems before
+                for c in ls_variants(rng, ls_base(fam, m, n, batch, k, infos, A, b), ctx.thorough):
+                    if c.get('dtype') == 'float32' and kap > 1e3:
+                        continue
+                    refs.setdefault(c.get('dtype') or 'float64', None)
+                    if refs[c.get('dtype') or 'float64'] is None:
+                        refs[c.get('dtype') or 'float64'] = ls_refs(T, c)
+                    why, ratios = ls_property(T, solver, c, refs[c.get('dtype') or 'float64'])
+                    name = c['solver']
+                    ctx.case(('ls', name, fam, m, n, batch, k, c.get('driver'), c.get('defdtype'), c.get('layout'), c.get('dtype'), c['tolcut'], float(A.sum())),
+                             nontrivial=True, branch='ls:%s:%s' % (name, fam))
+                    ctx.count('ls-call-form:%s driver=%s cut=%s' % (name, c.get('driver'), 'default' if c['tolcut'] is None else 'explicit'))
+                    ctx.count('ls-default-dtype:%s input:%s' % (c.get('defdtype'), c.get('dtype') or 'float64'))
+                    ctx.count('ls-layout:%s history:%d' % (c.get('layout') or 'contiguous', len(c.get('history') or [])))
                     for kname, v in ratios.items():
-                        worst[name + ':' + kname] = max(worst.get(name + ':' + kname, 0.0), v)
+                        kk = '%s%s:%s' % (name, '' if (c.get('dtype') or 'float64') == 'float64' else '[float32]', kname)
+                        worst[kk] = max(worst.get(kk, 0.0), v)
                     if why:
                         ctx.violation('%s.forward:not-least-squares' % name, why, c)
+                refs.clear()
     # ---- Cholesky
     nonpd = []
     for n0 in sizes:
@@ -733,11 +953,12 @@ def check_direct(ctx, torch, solver, files, tables):
             k = rng.choice([1, 1, 2])
             b = T.randn(batch + (n0, k), generator=gen, dtype=T.float64)
             upper = rng.random() < 0.3
-            cdesc = dict(kind='cholesky', fam=fam, n=n0, batch=batch, k=k, upper=upper, A=A.tolist(), b=b.tolist())
+            cdesc = dict(kind='cholesky', fam=fam, n=n0, batch=batch, k=k, upper=upper, A=A.tolist(), b=b.tolist(), defdtype=rng.choice(['float32', 'float64']))
             ctx.case(('chol', fam, n0, batch, upper, float(A.sum())), nontrivial=True, branch='cholesky:' + fam)
             L, info = T.linalg.cholesky_ex(A, upper=upper)
             try:
-                x = solver.Cholesky(upper=upper)(A, b)
+                with default_dtype(T, cdesc['defdtype']):
+                    x = solver.Cholesky(upper=upper)(A, b)
                 raised = False
             except AssertionError:
                 x, raised = None, True
@@ -880,13 +1101,19 @@ def replay(ctx, c):
     if k == 'cholesky':
         A = torch.tensor(c['A'], dtype=torch.float64)
         b = torch.tensor(c['b'], dtype=torch.float64)
+        snap = (A.clone(), b.clone())
         try:
-            x = solver.Cholesky(upper=c.get('upper', False))(A, b)
+            with default_dtype(torch, c.get('defdtype')):
+                x = solver.Cholesky(upper=c.get('upper', False))(A, b)
         except AssertionError:
             return None if c['fam'] != 'spd' else 'Cholesky raised AssertionError on an SPD matrix (n=%d)' % c['n']
         except Exception as e:  # noqa
             return 'Cholesky raised %s: %s' % (type(e).__name__, str(e)[:160])
+        if not (torch.equal(A, snap[0]) and torch.equal(b, snap[1])):
+            return 'Cholesky(upper=%s)(A, b) modified its arguments in place (n=%d, %s)' % (c.get('upper', False), c['n'], c['fam'])
         if c['fam'] == 'spd':
+            if x.dtype != torch.float64 or x.shape != b.shape:
+                return 'Cholesky returned %s of shape %s for float64 A, b of shape %s (process default dtype %s)' % (x.dtype, tuple(x.shape), tuple(b.shape), c.get('defdtype'))
             r = float((A @ x - b).norm())
             lim = 1e3 * c['n'] * EPS * float(A.norm() * x.norm() + b.norm())
             return None if r <= lim else 'Cholesky(upper=%s) returned x with |A x - b| = %.3e (allowed %.3e) for SPD A (n=%d)' % (c.get('upper', False), r, lim, c['n'])
